@@ -38,6 +38,8 @@ META = {
                    'thorough': 'all boolean tables <= 3x3, 3x4, 4x3, 4x4'},
     'assumptions': ['labels are read through Concept.objects/.properties/.atoms'],
 }
+META['rule'] += (' BIGLAT: additionally the Boolean lattice of 16 384 concepts (contranominal scale 14) in the quick '
+                 'tier and those of 32 768 and 65 536 concepts in the thorough tier.')
 
 
 def judge_labels(lat, cap, origin):
@@ -213,7 +215,7 @@ def setup(concepts, spec):
 
 
 def cases(tier, seed, spec):
-    yield from gen.biglat(tier)
+    yield from gen.biglat(tier, quick_sizes=(14,))
     yield from gen.ctx_stream(tier, seed)
 
 
